@@ -33,6 +33,7 @@ THEOREMS = [
     "Verif.C02.wfCheck_complete_partial",
     "Verif.C02.domX_iff",
     "Verif.C02.wfCheck_eq_clauses",
+    "Verif.C02.allKinds_complete",
     "Verif.C02.def_on_every_path",
     "Verif.C02.phi_def_on_every_path",
     "Verif.C02.cfg_exact",
@@ -600,7 +601,8 @@ class Runner:
         self.ctx, self.tool = ctx, tool
         self.driver = vlib.driver_path("C02")
         self.stats = {"functions": 0, "nontrivial": 0, "instructions": 0, "phis": 0, "cross_block_uses": 0,
-                      "typed_instructions": 0, "packages": 0, "max_blocks": 0, "max_instrs": 0}
+                      "typed_instructions": 0, "packages": 0, "max_blocks": 0, "max_instrs": 0, "unreachable_blocks": 0,
+                      "functions_with_unreachable_blocks": 0}
         self.by_mode = {}
         self.by_origin = {}
         self.skipped = []
@@ -711,6 +713,8 @@ class Runner:
             st["phis"] += int(kv.get("phi", 0))
             st["cross_block_uses"] += int(kv.get("xuse", 0))
             st["typed_instructions"] += int(kv.get("typed", 0))
+            st["unreachable_blocks"] += int(kv.get("unreach", 0))
+            st["functions_with_unreachable_blocks"] += 1 if int(kv.get("unreach", 0)) else 0
             st["max_blocks"] = max(st["max_blocks"], nb)
             st["max_instrs"] = max(st["max_instrs"], ni)
             if nb >= 2 and int(kv.get("xuse", 0)) >= 1:
@@ -811,6 +815,42 @@ def mode_sample(rng, k):
     return ["-", "N"] + sorted(set(pick))
 
 
+def controls(ctx):
+    """validator self-test (corpus/C02/controls.txt): a real dump and single-edit corruptions of it with the
+    verdict each must get; a validator (or parser) that lost a clause is a machinery error, not a finding."""
+    p = os.path.join(CORPUS, "controls.txt")
+    if not os.path.exists(p):
+        raise vlib.HarnessError("corpus/C02/controls.txt is missing")
+    cases = []
+    for line in open(p):
+        line = line.strip()
+        if not line or line.startswith("#"):
+            continue
+        name, want, case = line.split(" ", 2)
+        cases.append((name, want, case))
+    outs = vlib.run_model(ctx, "C02", [c for _, _, c in cases])
+    bad = [(n, w, o.split(" ")[0]) for (n, w, _), o in zip(cases, outs) if o.split(" ")[0] != w]
+    if bad:
+        raise vlib.HarnessError("validator self-test failed (name, expected, got): %s" % bad)
+    return len(cases), sum(1 for _, w, _ in cases if w != "ok")
+
+
+def kinds_tie(ctx, tool):
+    """G-style tie: the instruction kinds of the Lean model (allKinds, proved total over the typing table)
+    against the types of package go/ir of the tree under test that implement ir.Instruction."""
+    rc, so, se = vlib.run([tool, "-kinds", "-dir", vlib.REPO], env=vlib.go_env(), timeout=900)
+    if rc != 0:
+        raise vlib.HarnessError("c02dump -kinds failed: " + se[-1500:])
+    tree = {}
+    for line in so.splitlines():
+        t = line.split()
+        if len(t) == 3 and t[0] == "K":
+            tree[t[1]] = t[2]
+    out = vlib.run_model(ctx, "C02", ["kinds"])[0]
+    model = dict(x.split(":") for x in out.split())
+    return tree, model
+
+
 # ======================================================================= the run
 def replay(ctx, R):
     rp = json.load(open(ctx.replay))
@@ -861,6 +901,9 @@ def run(ctx):
                                           "lean": lean_broke, "theorems": THEOREMS}, nofail=True)
         return vlib.finish(ctx, "translation_validation")
 
+    ncontrols, nrejected = controls(ctx)
+    ctx.coverage["validator_selftest_cases"] = ncontrols
+    ctx.coverage["validator_selftest_rejected_as_expected"] = nrejected
     rng = vlib.SplitMix(ctx.seed).fork("c02/modes")
     workers = 6 if quick else 8
 
@@ -957,10 +1000,23 @@ def run(ctx):
         return len(jobs), len(sjobs)
 
     njobs = (0, 0)
+    kinds_broke = None
     if ctx.replay:
         replay(ctx, R)
     else:
-        njobs = explore()
+        with ThreadPoolExecutor(max_workers=1) as kx:
+            kfut = kx.submit(kinds_tie, ctx, tool)
+            njobs = explore()
+            tree, model = kfut.result()
+        missing = sorted(set(tree) - set(model))
+        stale = sorted(set(model) - set(tree))
+        ctx.coverage["instruction_kinds_in_tree"] = len(tree)
+        ctx.coverage["instruction_kinds_in_model"] = len(model)
+        ctx.coverage["kinds_with_typing_row"] = sorted(k for k, v in model.items() if v == "typed")
+        if missing or stale:
+            kinds_broke = {"instruction_types_of_go_ir_unknown_to_the_model": missing,
+                           "model_kinds_that_no_longer_exist_in_go_ir": stale}
+        lap("kinds_tie")
 
     st = R.stats
     sanity_fns = sum(v for k, v in R.by_origin.items() if k.startswith("sanity:"))
@@ -976,6 +1032,8 @@ def run(ctx):
         "functions_validated": st["functions"], "nontrivial_functions": st["nontrivial"],
         "instructions_validated": st["instructions"], "phi_nodes": st["phis"],
         "cross_block_def_use_slots": st["cross_block_uses"], "instructions_with_typing_row": st["typed_instructions"],
+        "blocks_unreachable_from_entry": st["unreachable_blocks"],
+        "functions_with_unreachable_blocks": st["functions_with_unreachable_blocks"],
         "functions_by_mode": dict(sorted(R.by_mode.items())), "modes": ALL_MODES, "sanity_modes": SANITY_MODES,
         "functions_by_origin": dict(sorted(R.by_origin.items())),
         "functions_built_with_sanity_check_on": sanity_fns,
@@ -983,10 +1041,6 @@ def run(ctx):
         "max_blocks": st["max_blocks"], "max_instructions": st["max_instrs"],
         "jobs": njobs[0], "sanity_jobs": njobs[1],
         "generator_histogram": dict(sorted(hist.items())),
-        "typing_table_kinds": "Alloc Phi Load Store BinOp UnOp If Return MakeInterface ChangeInterface ChangeType Convert MultiConvert "
-                              "TypeAssert Extract Field FieldAddr IndexAddr Index StringLookup MapLookup MapUpdate MakeMap MakeChan "
-                              "MakeSlice Slice Send Recv Panic Range Next Call Go Defer MakeClosure TypeSwitch SliceToArrayPointer "
-                              "SliceToArray Select".split(),
         "kinds_without_typing_row": "Jump Unreachable RunDefers DebugRef BlankStore CompositeValue ConstantSwitch".split(),
         "samples": R.samples,
     })
@@ -998,7 +1052,8 @@ def run(ctx):
         "honnef.co/go/tools/go/types/typeutil.CoreType; type entries deeper than 6 levels are not expanded) and the awk split of the dump are trusted",
         "completeness of wfCheck is not proved: a rejected function is confirmed on the dump (the replay carries the offending use/def and the IR text)",
         "reading: dominance is taken over Succs plus a virtual edge entry -> Recover (the Recover block is entered only after a panic inside the function); "
-        "uses in blocks unreachable from the entry are vacuously dominated (none exists in the explored dumps: deleteUnreachableBlocks)",
+        "uses in blocks unreachable from the entry are vacuously dominated (coverage.blocks_unreachable_from_entry counts them; "
+        "deleteUnreachableBlocks removes such blocks)",
         "reading: Operands/Referrers are inverse as relations; multiplicities of duplicate referrers are documented as unspecified (lift.go replace/replaceAll)",
         "TypeSwitch is a value-defining instruction in this tree (its result feeds a ConstantSwitch), not a terminator",
     ]
@@ -1040,6 +1095,12 @@ def run(ctx):
                 "cases": [dict(x, source=None) for x in xs[1:12]],
             }, text="C02: %d function dump(s) fail clause %s, smallest: %s (mode %s, %s, %d instrs): %s" % (
                 len(xs), clause, first["function"], first["mode"], first.get("file") or first.get("package"), first["instrs"], first["details"][:300]))
+    elif kinds_broke and not R.crashes:
+        ctx.violation("kinds.json", {
+            "what": "the instruction kinds of package go/ir and of the Lean model (typing table) differ: functions that contain an "
+                    "unknown kind cannot be validated; every explored function was accepted",
+            "correspondence": "c02dump -kinds vs c02driver kinds (theorem allKinds_complete)", "diff": kinds_broke,
+        }, nofail=True)
     elif not lean_ok and not R.crashes:
         ctx.violation("lean.json", {
             "what": "a proof of the validator no longer checks (or the audit found a forbidden axiom/token), but the compiled validator "
@@ -1051,7 +1112,8 @@ def run(ctx):
 
 def merge(R, r2):
     a, b = R.stats, r2.stats
-    for k in ("functions", "nontrivial", "instructions", "phis", "cross_block_uses", "typed_instructions", "packages"):
+    for k in ("functions", "nontrivial", "instructions", "phis", "cross_block_uses", "typed_instructions", "packages",
+              "unreachable_blocks", "functions_with_unreachable_blocks"):
         a[k] += b[k]
     for k in ("max_blocks", "max_instrs"):
         a[k] = max(a[k], b[k])
@@ -1086,9 +1148,14 @@ META = {
             "paths and counts. The quantifier over programs and modes is explored: corpus, go/ir testdata, seeded generator (goto-built "
             "irreducible CFGs, escaping locals, closures, generics, range-over-func, defer/recover, select), repository, std and testdata "
             "packages (quick: sample; thorough: all), plus builds with SanityCheckFunctions on (no panic).",
-    "note": "Trusted: Lean kernel (axioms propext/Quot.sound[/Classical.choice]), compiled c02driver, harness/cmd/c02dump + internal/c02ir "
-            "(exported API -> records, types.Identical classes, CoreType), awk/python plumbing. Not proved: completeness of the validator; "
-            "the quantifier over programs/modes; typing rows for ChangeType/Convert are shape checks only; no row for "
-            "Jump/Unreachable/RunDefers/DebugRef/BlankStore/CompositeValue/ConstantSwitch. Shares no code with go/ir/sanity.go.",
+    "note": "Trusted: Lean kernel (axioms propext/Quot.sound/Classical.choice), compiled c02driver, harness/cmd/c02dump + internal/c02ir "
+            "(exported API -> records, types.Identical classes, CoreType), awk/python plumbing. Proved besides soundness: the dominance test is "
+            "exact (domX_iff), partial completeness for the decide-based clauses (wfCheck_complete_partial), the typing table is total over the "
+            "model's 46 instruction kinds (allKinds_complete; the kinds are compared with the types of go/ir that implement ir.Instruction on "
+            "every run). Not proved: completeness of the three sort-based clauses; the quantifier over programs/modes (explored); typing rows for "
+            "ChangeType/Convert are shape checks only; no row for Jump/Unreachable/RunDefers/DebugRef/BlankStore/CompositeValue/ConstantSwitch. "
+            "Readings: dominance over Succs + virtual edge entry->Recover; Operands/Referrers inverse as relations (duplicates documented as "
+            "unspecified); TypeSwitch is a value instruction in this tree. Shares no code with go/ir/sanity.go. Unchanged tree: no violation "
+            "(963 k function dumps in the thorough tier).",
     "design_ref": "DESIGN.md section 5, C02; Appendix A",
 }
